@@ -397,8 +397,12 @@ def run(ctx: Ctx, tier: str) -> Result:
     rec = p.func(LA + ".record_triggered")
     fire = p.func(STATS + ".fire")
     fcalls = [c for c in t.calls_in(rec) if fire in t.resolve_call(c, rec).repo]
-    if len(fcalls) == 1 and fcalls[0].args and ctx.expand.expand(fcalls[0].args[0], rec) == [P(rec, 1)]:
-        res.ok("C04.UNITS", {"record_triggered -> fire(ts)": True})
+    cond_ = [norm(c_) for c_, _pol in paths.conditions(p, fcalls[0], rec)] if len(fcalls) == 1 else []
+    if len(fcalls) == 1 and cond_:
+        res.fail(Finding("C04.UNITS", rec.qname, fcalls[0], rec.loc(fcalls[0]), "a collection that has happened is recorded only when `%s`: a hit that was collected but not counted "
+                         "(two threads recording in the opposite order of their hit times, a clock stepping back) lets the tracepoint collect more than fire_count times" % cond_[0][:60]))
+    elif len(fcalls) == 1 and fcalls[0].args and ctx.expand.expand(fcalls[0].args[0], rec) == [P(rec, 1)]:
+        res.ok("C04.UNITS", {"record_triggered -> fire(ts), unconditionally": True})
     else:
         res.fail(Finding("C04.UNITS", rec.qname, "<fire(ts)>", rec.loc(), "record_triggered does not forward its timestamp to the statistics exactly once"))
     augs = [n for n in t.nodes_in(fire, ast.AugAssign)]
